@@ -134,6 +134,9 @@ impl FluentNumberOptions {
     }
 }
 
+/// Upper bound for `minimumFractionDigits`, as in ECMA-402.
+const MAX_FRACTION_DIGITS: usize = 100;
+
 #[derive(Debug, PartialEq, Clone)]
 pub struct FluentNumber {
     pub value: f64,
@@ -148,6 +151,7 @@ impl FluentNumber {
     pub fn as_string(&self) -> Cow<'static, str> {
         let mut val = self.value.to_string();
         if let Some(minfd) = self.options.minimum_fraction_digits {
+            let minfd = minfd.min(MAX_FRACTION_DIGITS);
             if let Some(pos) = val.find('.') {
                 let frac_num = val.len() - pos - 1;
                 let missing = minfd.saturating_sub(frac_num);
@@ -232,8 +236,13 @@ impl From<&FluentNumber> for PluralOperands {
             .try_into()
             .expect("Failed to generate operands out of FluentNumber");
         if let Some(mfd) = input.options.minimum_fraction_digits {
+            let mfd = mfd.min(MAX_FRACTION_DIGITS);
             if mfd > operands.v {
-                operands.f *= 10_u64.pow(mfd as u32 - operands.v as u32);
+                // f can only be approximated once it no longer fits: saturate, never overflow
+                let scale = 10_u64
+                    .checked_pow((mfd - operands.v) as u32)
+                    .unwrap_or(u64::MAX);
+                operands.f = operands.f.saturating_mul(scale);
                 operands.v = mfd;
             }
         }
